@@ -1174,4 +1174,75 @@ theorem main_redirect (fs : Fs) (cfg : Config) (f loc : Bytes) (h : main fs cfg 
       · simp at h
       · exact absurd h (serveFile_not_redirect fs _ loc)
 
+/-! ### canonical paths are fixed points of normalisation -/
+
+theorem stepComp_good (b c : Bytes) (last : Bool) (hc : goodComp c = true) :
+    stepComp b c last = (if last then [] else [47]) ++ c.reverse ++ b := by
+  obtain ⟨h1, h2, h3, _⟩ := (goodComp_iff c).mp hc
+  have hs : isSkip c = false := by
+    cases h : isSkip c with
+    | false => rfl
+    | true => rcases (isSkip_iff c).mp h with e | e <;> contradiction
+  have hu : isUp c = false := by
+    cases h : isUp c with
+    | false => rfl
+    | true => exact absurd ((isUp_iff c).mp h) h3
+  unfold stepComp
+  simp [hs, hu, gen_norm.2.2.2.2.2.2.2.2.2.1]
+
+theorem normLoop_good (cs : List Bytes) (c : Bytes) (st : List Bytes) (hg : ∀ d ∈ c :: cs, goodComp d = true) :
+    normLoop (47 :: rr st) (c :: cs) = rr ((c :: cs).reverse ++ st) := by
+  induction cs generalizing c st with
+  | nil =>
+    simp only [normLoop, List.reverse_cons, List.reverse_nil, List.nil_append, List.singleton_append]
+    rw [stepComp_good _ _ _ (hg c (by simp))]
+    simp [rr]
+  | cons c2 cs ih =>
+    rw [normLoop]
+    · rw [stepComp_good _ _ _ (hg c (by simp))]
+      have : ([] ++ [47] ++ c.reverse ++ 47 :: rr st : Bytes) = 47 :: rr (c :: st) := by simp [rr]
+      simp only [Bool.false_eq_true, if_false]
+      rw [show ([47] ++ c.reverse ++ 47 :: rr st : Bytes) = 47 :: rr (c :: st) by simp [rr]]
+      rw [ih c2 (c :: st) (fun d hd => hg d (List.mem_cons_of_mem _ hd))]
+      simp
+    · simp
+
+theorem finalTrim_inside (d : Bytes) (st : List Bytes) (hg : goodComp d = true) :
+    finalTrim (rr (d :: st)) = rr (d :: st) := by
+  have hd := good_slashFree hg
+  have hdn := good_ne_nil hg
+  cases hr : d.reverse with
+  | nil => simp at hr; exact absurd hr hdn
+  | cons x l =>
+    have hx : x ≠ 47 := by
+      intro e
+      have : (47 : UInt8) ∈ d.reverse := by rw [hr, e]; simp
+      exact hd (by simpa using this)
+    simp only [rr, hr, List.cons_append]
+    cases hh : l ++ 47 :: rr st with
+    | nil => simp at hh
+    | cons a r => simp [finalTrim, gen_norm.2.2.2.2.2.2.2.2.2.2, hx]
+
+theorem normalize_render (c : Bytes) (cs : List Bytes) (hg : ∀ d ∈ c :: cs, goodComp d = true) :
+    normalize (render (c :: cs)) = render (c :: cs) := by
+  obtain ⟨h0, h1, _⟩ := gen_norm
+  have hsf : ∀ d ∈ c :: cs, (47 : UInt8) ∉ d := fun d hd => good_slashFree (hg d hd)
+  unfold normalize
+  rw [h0, h1]
+  simp only [render_cons, List.isEmpty_cons, List.head?_cons, bne_self_eq_false, Bool.or_self, Bool.false_eq_true, if_false]
+  rw [splitSep_eq, splitSlash_render c cs hsf]
+  have := normLoop_good cs c [] hg
+  simp only [rr] at this
+  rw [this]
+  have hne : (c :: cs).reverse ++ [] ≠ [] := by simp
+  cases hrev : (c :: cs).reverse ++ [] with
+  | nil => exact absurd hrev hne
+  | cons d st =>
+    have hgd : goodComp d = true := by
+      apply hg
+      have : d ∈ (c :: cs).reverse ++ [] := by rw [hrev]; simp
+      simpa [or_comm] using this
+    rw [finalTrim_inside d st hgd, ← hrev, rr_reverse]
+    simp
+
 end Cppcms.C13
